@@ -58,6 +58,9 @@ def cases(tier, seed):
             out.append(('MMC/%s/%s/full' % (dsn, ini), ('full', dsn, ini, b['K'], seed)))
             if ini == 'array':
                 out.append(('MMC/%s/array_float32/full' % dsn, ('f32', dsn, ini, b['K'], seed)))
+            if ini == 'identity' and dsn != 'R':
+                out.append(('MMC/%s*2^-12/identity/full' % dsn, ('full', dsn + '*2^-12', ini, b['K'], seed)))
+                out.append(('MMC_Supervised/%s*2^-12/identity' % dsn, ('sup', dsn + '*2^-12', ini, b['K'], seed)))
             if ini != 'array_F':
                 out.append(('MMC/%s/%s/diagonal' % (dsn, ini), ('diag', dsn, ini, b['K'], seed)))
                 out.append(('MMC_Supervised/%s/%s' % (dsn, ini), ('sup', dsn, ini, b['K'], seed)))
@@ -153,7 +156,10 @@ def run_case(spec):
                     stats={k_: v for k_, v in stats.items() if not k_.startswith('worst_')},
                     headroom={k_: v for k_, v in stats.items() if k_.startswith('worst_')},
                     sample={'learner': 'MMC', 'family': 'random pair problems %s' % K, 'options': 'defaults, max_iter=60'})
-    ds = data.dataset('R', seed) if dsn == 'R' else data.dataset(dsn)
+    if dsn.endswith('*2^-12'):          # the same data in units 4096 times larger (coordinates ~1e-3): the budget is relative
+        ds = data.scaled(data.dataset(dsn.split('*')[0]), 2.0 ** -12)
+    else:
+        ds = data.dataset('R', seed) if dsn == 'R' else data.dataset(dsn)
     d = ds.d
     viol, sigs = [], set()
     evals = states = trans = amb = 0
